@@ -463,3 +463,173 @@ Example batch_row_agree_aggregated_lazy_nonvacuous : forall (fo : fops) (re : by
   select_agg_row_eager fo re ag (lz_q fo Group.ACount) (Group.Plan false
       [Group.FKey 0; Group.FKey 1; Group.FAgg (Group.AECall 0) [Group.Call Group.ACount 0]] 0 None) lz_store = Err (EExec 47).
 Proof. intros fo re ag. repeat split; reflexivity. Qed.
+
+(* ================================================================== SELECT FROM THE QUERY TEXT
+   (appended; Model/PipelineS.v, Proofs/PipelineSProofs.v).  [select_stmt_text fo re fmt_v ag pi pf q d m]
+   is kvql.NewOptimizer(q).BuildPlan(d) drained in mode m (MRow: Next until nil, MBatch B: Batch until
+   empty) as the composition of the twins of lexer, statement parser with its mid-parse tests,
+   checker, call check, constant folder at statement level, region inference, scan choice,
+   buildFinalPlan and the plan nodes; the correspondence check evaluates it on the same TEXT as the
+   Go code on every run (harness/c03.go part F, Corr/C03Text.v). *)
+From KV Require Import Model.Pipeline Model.PipelineS Proofs.PipelineSProofs.
+From KV Require Model.Storage Model.ScanIO Model.ScanSem Model.FilterOpt Model.ParseCheck Model.StmtParser Model.Checker
+                Model.PipelineW.
+
+(* THE GLUE, as an equivalence: the text is accepted and its drain returns [rows] iff the twin of
+   the front end + folder + buildFinalPlan plans [pl] for it and the composed plan twin
+   (Model/SelectPlans.v select_shape_row / select_shape_batch, the subject of the theorems above)
+   of the shape build_final_plan gives -- from whether the FOLDED fields hold an aggregate, the
+   ORDER BY items resolved to the first field of their name, and the LIMIT -- returns [rows] over
+   the slots that the scan chosen for the region of the FOLDED WHERE tree yields from the store *)
+Theorem select_text_glue :
+  forall (fo : fops) (re : bytes -> bytes -> res bool) (fmt_v : F fo -> string) (ag : aggops fo)
+         (pi pf : bytes -> option Z) (q : string) (d : Storage.store) (m : tmode) (rows : list Order.row),
+  select_stmt_text fo re fmt_v ag pi pf q d m = TOk rows <->
+  exists pl,
+    plan_stmt_text fo re fmt_v q = STOk pl /\
+    let c := sp_q fo pl in
+    let sh := build_final_plan (is_agg fo pl) (SelectPlans.s_order (F fo) (q_stmt fo c))
+                               (SelectPlans.s_limit (F fo) (q_stmt fo c)) in
+    let sl := scan_slots (ScanSem.scan_of_region (FilterOpt.optimize (q_where fo c))) d in
+    match m with
+    | MRow => select_shape_row fo re ag pi pf c sh sl = Ok rows
+    | MBatch B => select_shape_batch fo re ag pi pf B c sh sl = Ok rows
+    end.
+Proof. exact select_stmt_text_is_shape_run. Qed.
+Print Assumptions select_text_glue.
+
+(* what an accepted text fixes about its plan: the trees are the checker's (names resolved), the
+   filter evaluates the FOLDED tree, the scan node comes from the region of THAT tree, the
+   projection evaluates the folded fields, FieldNames / FieldTypes are those of the checked fields
+   (KEY, VALUE / text, text for `*`), ORDER BY items carry the FIRST field of their name, the LIMIT
+   is the parsed one *)
+Theorem select_text_plan :
+  forall (fo : fops) (re : bytes -> bytes -> res bool) (fmt_v : F fo -> string) (q : string) (pl : splanned fo),
+  plan_stmt_text fo re fmt_v q = STOk pl ->
+  let x := sp_select fo pl in
+  let fields := sp_fields fo pl in
+  let c := sp_q fo pl in
+  front_s fo q = STOk (x, fields, sp_where fo pl) /\
+  q_where fo c = exec_of fo re fmt_v (sp_where fo pl) /\
+  sp_scan fo pl = ScanSem.scan_of_region (FilterOpt.optimize (q_where fo c)) /\
+  (is_agg fo pl = false ->
+   q_fields fo c = if StmtParser.s_all x then None else Some (map (fun nf => exec_of fo re fmt_v (snd nf)) fields)) /\
+  SelectPlans.s_names (F fo) (q_stmt fo c) = plan_names x fields /\
+  SelectPlans.s_types (F fo) (q_stmt fo c) = plan_types x fields /\
+  SelectPlans.s_order (F fo) (q_stmt fo c) = option_map (order_fields fields) (StmtParser.s_order x) /\
+  PipelineW.limit_of (StmtParser.s_limit x) = Some (SelectPlans.s_limit (F fo) (q_stmt fo c)) /\
+  sp_shape fo pl = build_final_plan (is_agg fo pl) (SelectPlans.s_order (F fo) (q_stmt fo c))
+                                    (SelectPlans.s_limit (F fo) (q_stmt fo c)).
+Proof. exact plan_stmt_text_inv. Qed.
+Print Assumptions select_text_plan.
+
+(* the front end of the text twin is Model/ParseCheck.v parse_check up to its plan stage (which
+   PipelineS redoes on the FOLDED fields, as buildFinalPlan sees them), for every statement the
+   checker twin of ParseCheck takes; beyond it (GROUP BY together with a field name inside a select
+   field: to_check = None) the text twin applies the same checker to the same trees (to_check_s) *)
+Theorem select_text_front_is_parse_check :
+  forall (fo : fops) (q : string) (x : StmtParser.select_t) (fields : list (string * expr)) (w : expr),
+  front_s fo q = STOk (x, fields, w) ->
+  ParseCheck.to_check (StmtParser.StSelect x) = None \/
+  (exists b, ParseCheck.parse_check fo q =
+               ParseCheck.PCOk (StmtParser.StSelect x)
+                 (Checker.SSelect fields w (ParseCheck.order_items (StmtParser.s_order x))) b) \/
+  (exists z, ParseCheck.parse_check fo q = ParseCheck.PCErr ParseCheck.KPlan z).
+Proof. exact front_s_parse_check. Qed.
+Print Assumptions select_text_front_is_parse_check.
+
+(* C03 FROM THE TEXT: a batch drain of the text that completes => the row drain of the same text
+   completes with the same rows in the same order (up to string / []byte), every B >= 1, every
+   store, every statement the twin accepts (projection or aggregates, ORDER BY, LIMIT, every scan).
+   Premise: no select field is a bare list literal (as batch_row_agree_statement). *)
+Theorem batch_row_agree_text :
+  forall (fo : fops) (re : bytes -> bytes -> res bool) (fmt_v : F fo -> string) (ag : aggops fo)
+         (pi pf : bytes -> option Z) (q : string) (d : Storage.store) (B : nat) (outs : list Order.row),
+  1 <= B ->
+  (forall pl, plan_stmt_text fo re fmt_v q = STOk pl -> fields_ok (q_fields fo (sp_q fo pl))) ->
+  select_stmt_text fo re fmt_v ag pi pf q d (MBatch B) = TOk outs ->
+  exists rows, select_stmt_text fo re fmt_v ag pi pf q d MRow = TOk rows /\ nrows rows = nrows outs.
+Proof. exact PipelineSProofs.batch_row_agree_text. Qed.
+Print Assumptions batch_row_agree_text.
+
+(* the projection from the text: one row per pair of the scan on which the (folded) WHERE tree is
+   true, in scan order, every column the value of its (checked and folded) field on that pair *)
+Theorem select_fields_text_values :
+  forall (fo : fops) (re : bytes -> bytes -> res bool) (fmt_v : F fo -> string) (ag : aggops fo)
+         (pi pf : bytes -> option Z) (q : string) (d : Storage.store) (pl : splanned fo) (out : list Order.row),
+  plan_stmt_text fo re fmt_v q = STOk pl ->
+  sp_shape fo pl = SProj ->
+  select_stmt_text fo re fmt_v ag pi pf q d MRow = TOk out ->
+  let c := sp_q fo pl in
+  let pairs := somes (scan_slots (sp_scan fo pl) d) in
+  Forall (fun kv => exists b, filter_row fo re (fst kv) (snd kv) (q_where fo c) = Ok b) pairs /\
+  Forall2 (row_of_fields fo re ag (q_fields fo c))
+          (filter (fun kv => match filter_row fo re (fst kv) (snd kv) (q_where fo c) with
+                             | Ok true => true | _ => false end) pairs) out.
+Proof. exact PipelineSProofs.select_fields_text_values. Qed.
+Print Assumptions select_fields_text_values.
+
+(* ---- non-vacuity (integer texts only: no float operation is reached; parametric in fo) *)
+Definition ps_ex_store : Storage.store := [("a", "3"); ("ab", "1"); ("b", "2"); ("c", "1")].
+Definition ps_ex_order_limit : string :=
+  "select key, int(value) as n, n + 1 as n where key > '' ORDER BY n desc, key limit 1, 2;".
+Definition ps_ex_group_limit : string :=
+  "select value as g, count(1) as c, sum(int(value)) * 2 as s where key ^= 'a' | key >= 'b' group by g limit 1, 5".
+
+(* ORDER BY + LIMIT over a projection with a duplicate field name: the FIRST n sorts; full scan;
+   FinalLimitPlan over FinalOrderPlan over ProjectionPlan; both modes *)
+Example select_text_order_limit_nonvacuous :
+  forall (fo : fops) (re : bytes -> bytes -> res bool) (fmt_v : F fo -> string) (ag : aggops fo)
+         (pi pf : bytes -> option Z),
+  (exists pl, plan_stmt_text fo re fmt_v ps_ex_order_limit = STOk pl /\
+              sp_scan fo pl = ScanIO.SFull /\
+              SelectPlans.s_names (F fo) (q_stmt fo (sp_q fo pl)) = ["KEY"; "n"; "n"]%string /\
+              SelectPlans.s_types (F fo) (q_stmt fo (sp_q fo pl)) = [Order.TSTR; Order.TNUMBER; Order.TNUMBER] /\
+              (exists f1 f2, sp_shape fo pl =
+                 SLimit 1 2 (SOrder [Order.OrderField "n" f1 true; Order.OrderField "KEY" f2 false] SProj))) /\
+  select_stmt_text fo re fmt_v ag pi pf ps_ex_order_limit ps_ex_store MRow =
+    TOk [[Order.VBytes "b"; Order.VInt 2; Order.VInt 3]; [Order.VBytes "ab"; Order.VInt 1; Order.VInt 2]] /\
+  select_stmt_text fo re fmt_v ag pi pf ps_ex_order_limit ps_ex_store (MBatch 2) =
+    TOk [[Order.VBytes "b"; Order.VInt 2; Order.VInt 3]; [Order.VBytes "ab"; Order.VInt 1; Order.VInt 2]].
+Proof.
+  intros. split; [|split; vm_compute; reflexivity].
+  eexists. split; [vm_compute; reflexivity|]. repeat split; try (vm_compute; reflexivity).
+  do 2 eexists. vm_compute. reflexivity.
+Qed.
+
+(* GROUP BY + aggregates + LIMIT without ORDER BY: the LIMIT is pushed into the AggregatePlan
+   (shape SAgg 1 (Some 5)), full scan (an OR of a prefix and a range), groups in first-occurrence
+   order 3, 1, 2: the slice from the second group on *)
+Example select_text_group_limit_nonvacuous :
+  forall (fo : fops) (re : bytes -> bytes -> res bool) (fmt_v : F fo -> string) (ag : aggops fo)
+         (pi pf : bytes -> option Z),
+  (exists pl, plan_stmt_text fo re fmt_v ps_ex_group_limit = STOk pl /\ sp_shape fo pl = SAgg 1 (Some 5) /\
+              is_agg fo pl = true) /\
+  select_stmt_text fo re fmt_v ag pi pf ps_ex_group_limit ps_ex_store MRow =
+    TOk [[Order.VBytes "1"; Order.VInt 2; Order.VInt 4]; [Order.VBytes "2"; Order.VInt 1; Order.VInt 4]] /\
+  select_stmt_text fo re fmt_v ag pi pf ps_ex_group_limit ps_ex_store (MBatch 3) =
+    TOk [[Order.VBytes "1"; Order.VInt 2; Order.VInt 4]; [Order.VBytes "2"; Order.VInt 1; Order.VInt 4]].
+Proof.
+  intros. split; [|split; vm_compute; reflexivity].
+  eexists. split; [vm_compute; reflexivity|]. split; vm_compute; reflexivity.
+Qed.
+
+(* the glue decisions on texts: hasAggr is computed on the FOLDED fields (a projection, although
+   the field as written holds an aggregate call); `order by key asc` alone is dropped; rejections
+   of buildFinalPlan and of AggregatePlan.Init with their positions; PUT is outside this twin *)
+Example select_text_glue_decisions :
+  forall (fo : fops) (re : bytes -> bytes -> res bool) (fmt_v : F fo -> string) (ag : aggops fo)
+         (pi pf : bytes -> option Z),
+  select_stmt_text fo re fmt_v ag pi pf "select key, true | (count(1) > 0) as x where key = 'b'" ps_ex_store MRow =
+    TOk [[Order.VBytes "b"; Order.VBool true]] /\
+  (exists pl, plan_stmt_text fo re fmt_v "select * where key ^= 'a' order by key asc" = STOk pl /\
+              sp_shape fo pl = SProj /\ sp_scan fo pl = ScanIO.SPrefix "a") /\
+  select_stmt_text_st fo re fmt_v ag pi pf "select key, count(1) where key > ''" ps_ex_store MRow = STReject (-1) /\
+  select_stmt_text_st fo re fmt_v ag pi pf "select key where key > '' group by key" ps_ex_store MRow = STReject 0 /\
+  select_stmt_text_st fo re fmt_v ag pi pf "select count() where key > ''" ps_ex_store MRow = STBuildErr (EExec 7) /\
+  select_stmt_text fo re fmt_v ag pi pf "put ('k', 'v')" ps_ex_store MRow = TOom.
+Proof.
+  intros. split; [vm_compute; reflexivity|]. split.
+  { eexists. split; [vm_compute; reflexivity|]. split; vm_compute; reflexivity. }
+  repeat split; vm_compute; reflexivity.
+Qed.
